@@ -421,14 +421,17 @@ def lonf_trend_is_the_l1_optimum(K, order, n, nv, margin):
     K.ensure("nothing outside the span of the input", K.Implies(K.Or(t < start, t >= start + n), K.And(K.cell_is_nan(V(K, ts, td, t, 0)), K.cell_is_nan(V(K, gs, gd, t, 0)))))
 
 
-@contract("C14", targets=[PH + "hpf", PH + "_data_hpf"], instances=[(3,), (4,)], opts={"max_paths": 600})
-def hpf_filters_every_variant(K, n):
-    """A series with two variants: each variant is filtered on its own (same smoothing parameter), and trend and
-    gap keep both variants."""
+@contract("C14", targets=[PH + "hpf", PH + "_data_hpf", PH + "_ConstrainedHodrickPrescottFilter._add_eye_for_observations"],
+          instances=[(3, ((False,) * 3, (False,) * 3)), (4, ((False,) * 4, (False,) * 4)), (4, ((False, True, False, False), (False,) * 4)), (4, ((False,) * 4, (False, False, True, False))),
+                     (5, ((False, True, False, True, False), (False, False, False, True, False)))], opts={"max_paths": 600})
+def hpf_filters_every_variant(K, n, patterns):
+    """A series with two variants: each variant is filtered on its own - with ITS OWN pattern of missing observations
+    (nothing computed for one variant is reused for another) and the same smoothing parameter - and trend and gap keep
+    both variants."""
     cls = D.QuarterlyPeriod
     start = K.int("start", 8000, 8100)
     lam = K.real("smooth", positive=True, sample=(0.5, 200))
-    data = K.array("y", (n, 2), nan=False)
+    data = K.array_cells([[K.nan_cell() if patterns[c][t] else K.real(f"y_{t}_{c}", sample=(-3, 3)) for c in range(2)] for t in range(n)])
     y0 = K.snapshot(data)
     x = K.obj(Series, start=K.obj(cls, serial=start), data=data, data_type=np.float64, metadata={}, __description__="")
     trend, gap = K.call(HP.hpf, x, smooth=lam)
@@ -439,7 +442,7 @@ def hpf_filters_every_variant(K, n):
         ycells = [K.cell(y0, t, c) for t in range(n)]
         tr = [V(K, ts, td, start + t, c) for t in range(n)]
         gp = [V(K, gs, gd, start + t, c) for t in range(n)]
-        optimality_conditions(K, n, (False,) * n, (), (), False, lam, ycells, tr, gp, [], [])
+        optimality_conditions(K, n, patterns[c], (), (), False, lam, ycells, tr, gp, [], [])
 
 
 # ------------------------------------------------------------------------------ native replay on longer series (bounded stand-in, NOT a proof)
